@@ -537,6 +537,9 @@ def obligations():
                  fi=[1, 3])
     obs += split(Ob('h_field_view', {'progress': 'annotations', 'diffbase': 'annotations', 'v1': True}, timeout=900, tiers=('thorough',)),
                  fi=[0, 2, 4, 5])
+    # a composite diff-base storage builds the essence once per sub-storage: a handler's extra field (status.*, system metadata)
+    # must survive every pass
+    obs += split(Ob('h_field_view', {'progress': 'smart', 'diffbase': 'multi', 'v1': False, 'prefix': 'my.op.io'}, timeout=900), fi=[5])
     obs += split(Ob('h_field_view', {'progress': 'smart', 'diffbase': 'multi', 'v1': False, 'prefix': 'my.op.io'}, timeout=900, tiers=('thorough',)),
-                 fi=[0, 1, 2, 3, 4, 5])
+                 fi=[0, 1, 2, 3, 4])
     return obs
